@@ -714,6 +714,15 @@ let rec nth n l default =
             | [] -> default
             | _ :: t -> nth m t default)
 
+(** val last : 'a1 list -> 'a1 -> 'a1 **)
+
+let rec last l d =
+  match l with
+  | [] -> d
+  | a :: l0 -> (match l0 with
+                | [] -> a
+                | _ :: _ -> last l0 d)
+
 (** val concat : 'a1 list list -> 'a1 list **)
 
 let rec concat = function
@@ -895,6 +904,11 @@ let fz k = function
 | Z0 -> k.o0
 | Zpos p -> fpos k p
 | Zneg p -> k.oopp (fpos k p)
+
+(** val fq : ops -> q -> car **)
+
+let fq k q0 =
+  k.odiv (fz k q0.qnum) (fpos k q0.qden)
 
 (** val fpow : ops -> car -> nat -> car **)
 
@@ -1130,100 +1144,12 @@ let rec lookup l k =
   | [] -> Obj.magic c0 qcOps
   | p :: r -> let (j, v) = p in if idx_eqb j k then v else lookup r k
 
-(** val scan :
-    ('a1 -> 'a2 -> 'a1 * 'a3) -> 'a1 -> 'a2 list -> 'a1 * 'a3 list **)
+(** val root_arg : ops -> car -> car -> car -> car -> car **)
 
-let rec scan f c = function
-| [] -> (c, [])
-| x :: r ->
-  let (c', y) = f c x in let (cf, ys) = scan f c' r in (cf, (y :: ys))
-
-(** val rollout : ('a1 -> 'a1) -> nat -> bool -> 'a1 -> 'a1 list **)
-
-let rollout f n include_init u0 =
-  let scan_fn = fun u _ -> let u' = f u in (u', u') in
-  let trj = snd (scan scan_fn u0 (repeat () n)) in
-  if include_init then u0 :: trj else trj
-
-(** val repeat_fn : ('a1 -> 'a1) -> nat -> 'a1 -> 'a1 **)
-
-let repeat_fn f n u0 =
-  let scan_fn = fun u _ -> let u' = f u in (u', ()) in
-  fst (scan scan_fn u0 (repeat () n))
-
-type 'x auxarg =
-| AuxConst of 'x
-| AuxSeq of 'x list
-
-(** val aux_seq : nat -> bool -> 'a1 auxarg -> 'a1 list option **)
-
-let aux_seq n constant_aux a =
-  if constant_aux
-  then (match a with
-        | AuxConst x -> Some (repeat x n)
-        | AuxSeq _ -> None)
-  else (match a with
-        | AuxConst _ -> None
-        | AuxSeq xs -> if Nat.eqb (length xs) n then Some xs else None)
-
-(** val rollout_aux :
-    ('a1 -> 'a2 -> 'a1) -> nat -> bool -> bool -> 'a1 -> 'a2 auxarg -> 'a1
-    list option **)
-
-let rollout_aux f n include_init constant_aux u0 a =
-  match aux_seq n constant_aux a with
-  | Some xs ->
-    let scan_fn = fun u x -> let u' = f u x in (u', u') in
-    let trj = snd (scan scan_fn u0 xs) in
-    Some (if include_init then u0 :: trj else trj)
-  | None -> None
-
-(** val repeat_aux :
-    ('a1 -> 'a2 -> 'a1) -> nat -> bool -> 'a1 -> 'a2 auxarg -> 'a1 option **)
-
-let repeat_aux f n constant_aux u0 a =
-  match aux_seq n constant_aux a with
-  | Some xs ->
-    let scan_fn = fun u x -> let u' = f u x in (u', ()) in
-    Some (fst (scan scan_fn u0 xs))
-  | None -> None
-
-(** val dynamic_slice : 'a1 list -> nat -> nat -> 'a1 list **)
-
-let dynamic_slice l i len =
-  firstn len (skipn (Nat.min i (sub (length l) len)) l)
-
-(** val stack_sub : 'a1 list -> nat -> 'a1 list list option **)
-
-let stack_sub trj sub_len =
-  let t = length trj in
-  if Nat.ltb t sub_len
-  then None
-  else Some
-         (map (fun i -> dynamic_slice trj i sub_len)
-           (seq O (add (sub t sub_len) (S O))))
-
-(** val all_same : nat list -> bool **)
-
-let all_same = function
-| [] -> true
-| x :: r -> forallb (Nat.eqb x) r
-
-(** val stack_sub_tree : 'a1 list list -> nat -> 'a1 list list list option **)
-
-let stack_sub_tree leaves sub_len =
-  match leaves with
-  | [] -> None
-  | l0 :: _ ->
-    if all_same (map length leaves)
-    then if Nat.ltb (length l0) sub_len
-         then None
-         else Some
-                (map (fun leaf ->
-                  match stack_sub leaf sub_len with
-                  | Some w -> w
-                  | None -> []) leaves)
-    else None
+let root_arg k ii pi j m =
+  k.odiv
+    (k.omul (k.omul (k.omul ii (fz k (Zpos (XO XH)))) pi)
+      (k.osub j (fq k { qnum = (Zpos XH); qden = (XO XH) }))) m
 
 (** val etdrk1_integrand_1 : ops -> car -> car -> car -> car **)
 
@@ -1425,6 +1351,542 @@ let order_dispatch = function
       | XH -> Some (S (S O)))
    | XH -> Some (S O))
 | Zneg _ -> None
+
+(** val lift1 : ops -> (car -> car) -> car option -> car option **)
+
+let lift1 _ f = function
+| Some x -> Some (f x)
+| None -> None
+
+(** val lift2 :
+    ops -> (car -> car -> car) -> car option -> car option -> car option **)
+
+let lift2 _ f a b =
+  match a with
+  | Some x -> (match b with
+               | Some y -> Some (f x y)
+               | None -> None)
+  | None -> None
+
+(** val odiv_opt : ops -> car option -> car option -> car option **)
+
+let odiv_opt k a b =
+  match a with
+  | Some x ->
+    (match b with
+     | Some y -> if k.oeqb y k.o0 then None else Some (k.odiv x y)
+     | None -> None)
+  | None -> None
+
+(** val oinv_opt : ops -> car option -> car option **)
+
+let oinv_opt k = function
+| Some y -> if k.oeqb y k.o0 then None else Some (k.oinv y)
+| None -> None
+
+(** val oeqb_opt : ops -> car option -> car option -> bool **)
+
+let oeqb_opt k a b =
+  match a with
+  | Some x -> (match b with
+               | Some y -> k.oeqb x y
+               | None -> false)
+  | None -> (match b with
+             | Some _ -> false
+             | None -> true)
+
+(** val optOps : ops -> ops **)
+
+let optOps k =
+  { o0 = (Obj.magic (Some k.o0)); o1 = (Obj.magic (Some k.o1)); oadd =
+    (Obj.magic lift2 k k.oadd); omul = (Obj.magic lift2 k k.omul); osub =
+    (Obj.magic lift2 k k.osub); oopp = (Obj.magic lift1 k k.oopp); odiv =
+    (Obj.magic odiv_opt k); oinv = (Obj.magic oinv_opt k); oeqb =
+    (Obj.magic oeqb_opt k) }
+
+(** val num_e1 : ops -> car -> car -> car **)
+
+let num_e1 k _ e =
+  k.osub e k.o1
+
+(** val num_e2 : ops -> car -> car -> car **)
+
+let num_e2 k lr e =
+  k.osub (k.osub e k.o1) lr
+
+(** val num_a3 : ops -> car -> car -> car **)
+
+let num_a3 k lr e =
+  k.oadd (k.osub (fz k (Zneg (XO (XO XH)))) lr)
+    (k.omul e
+      (k.oadd
+        (k.osub (fz k (Zpos (XO (XO XH)))) (k.omul (fz k (Zpos (XI XH))) lr))
+        (k.omul lr lr)))
+
+(** val num_b3 : ops -> car -> car -> car **)
+
+let num_b3 k lr e =
+  k.oadd (k.oadd (fz k (Zpos (XO XH))) lr)
+    (k.omul e (k.oadd (fz k (Zneg (XO XH))) lr))
+
+(** val num_c3 : ops -> car -> car -> car **)
+
+let num_c3 k lr e =
+  k.oadd
+    (k.osub
+      (k.osub (fz k (Zneg (XO (XO XH)))) (k.omul (fz k (Zpos (XI XH))) lr))
+      (k.omul lr lr)) (k.omul e (k.osub (fz k (Zpos (XO (XO XH)))) lr))
+
+(** val inv_pow : ops -> car -> nat -> car **)
+
+let inv_pow k lr m =
+  fpow k (k.oinv lr) m
+
+(** val fst_a : ops -> ('a1 -> car) -> ('a1 -> car) -> 'a1 -> car **)
+
+let fst_a k c2 f k0 =
+  k.omul (c2 k0) (f k0)
+
+(** val fst_b3 :
+    ops -> ('a1 -> car) -> ('a1 -> car) -> ('a1 -> car) -> (('a1 -> car) ->
+    'a1 -> car) -> 'a1 -> car **)
+
+let fst_b3 k c2 c3 f n k0 =
+  k.omul (c3 k0)
+    (k.osub (k.omul (fz k (Zpos (XO XH))) (n (fst_a k c2 f) k0)) (f k0))
+
+(** val fst_b4 :
+    ops -> ('a1 -> car) -> ('a1 -> car) -> ('a1 -> car) -> (('a1 -> car) ->
+    'a1 -> car) -> 'a1 -> car **)
+
+let fst_b4 k c2 c3 f n k0 =
+  k.omul (c3 k0) (n (fst_a k c2 f) k0)
+
+(** val fst_c4 :
+    ops -> ('a1 -> car) -> ('a1 -> car) -> ('a1 -> car) -> ('a1 -> car) ->
+    ('a1 -> car) -> (('a1 -> car) -> 'a1 -> car) -> 'a1 -> car **)
+
+let fst_c4 k eh c2 c3 c4 f n k0 =
+  k.oadd (k.omul (eh k0) (k.omul (c2 k0) (f k0)))
+    (k.omul (c4 k0)
+      (k.osub (k.omul (fz k (Zpos (XO XH))) (n (fst_b4 k c2 c3 f n) k0))
+        (f k0)))
+
+(** val forced1 : ops -> ('a1 -> car) -> ('a1 -> car) -> 'a1 -> car **)
+
+let forced1 k c2 f k0 =
+  k.omul (c2 k0) (f k0)
+
+(** val forced2 :
+    ops -> ('a1 -> car) -> ('a1 -> car) -> ('a1 -> car) -> (('a1 -> car) ->
+    'a1 -> car) -> 'a1 -> car **)
+
+let forced2 k c2 c3 f n k0 =
+  k.oadd (k.omul (c2 k0) (f k0))
+    (k.omul (c3 k0) (k.osub (n (fst_a k c2 f) k0) (f k0)))
+
+(** val forced3 :
+    ops -> ('a1 -> car) -> ('a1 -> car) -> ('a1 -> car) -> ('a1 -> car) ->
+    ('a1 -> car) -> ('a1 -> car) -> (('a1 -> car) -> 'a1 -> car) -> 'a1 -> car **)
+
+let forced3 k c2 c3 c4 c5 c6 f n k0 =
+  k.oadd
+    (k.oadd (k.omul (c4 k0) (f k0)) (k.omul (c5 k0) (n (fst_a k c2 f) k0)))
+    (k.omul (c6 k0) (n (fst_b3 k c2 c3 f n) k0))
+
+(** val forced4 :
+    ops -> ('a1 -> car) -> ('a1 -> car) -> ('a1 -> car) -> ('a1 -> car) ->
+    ('a1 -> car) -> ('a1 -> car) -> ('a1 -> car) -> ('a1 -> car) -> (('a1 ->
+    car) -> 'a1 -> car) -> 'a1 -> car **)
+
+let forced4 k eh c2 c3 c4 c5 c6 c7 f n k0 =
+  k.oadd
+    (k.oadd (k.omul (c5 k0) (f k0))
+      (k.omul (k.omul (c6 k0) (fz k (Zpos (XO XH))))
+        (k.oadd (n (fst_a k c2 f) k0) (n (fst_b4 k c2 c3 f n) k0))))
+    (k.omul (c7 k0) (n (fst_c4 k eh c2 c3 c4 f n) k0))
+
+(** val all_integrands : ops -> (car -> car -> car -> car) list **)
+
+let all_integrands kx =
+  (etdrk1_integrand_1 kx) :: ((etdrk2_integrand_1 kx) :: ((etdrk2_integrand_2
+                                                            kx) :: ((etdrk3_integrand_1
+                                                                    kx) :: (
+    (etdrk3_integrand_2 kx) :: ((etdrk3_integrand_3 kx) :: ((etdrk3_integrand_4
+                                                              kx) :: (
+    (etdrk3_integrand_5 kx) :: ((etdrk4_integrand_1 kx) :: ((etdrk4_integrand_2
+                                                              kx) :: (
+    (etdrk4_integrand_3 kx) :: ((etdrk4_integrand_4 kx) :: ((etdrk4_integrand_5
+                                                              kx) :: (
+    (etdrk4_integrand_6 kx) :: [])))))))))))))
+
+(** val num_form : z -> z -> car -> car -> car -> car * nat **)
+
+let num_form p j lr e eh =
+  match p with
+  | Zpos p0 ->
+    (match p0 with
+     | XI p1 ->
+       (match p1 with
+        | XH ->
+          (match j with
+           | Zpos p2 ->
+             (match p2 with
+              | XI p3 ->
+                (match p3 with
+                 | XI _ -> ((Obj.magic c0 qcOps), O)
+                 | XO p4 ->
+                   (match p4 with
+                    | XH -> ((num_c3 cQ lr e), (S (S (S O))))
+                    | _ -> ((Obj.magic c0 qcOps), O))
+                 | XH -> ((num_a3 cQ lr e), (S (S (S O)))))
+              | XO p3 ->
+                (match p3 with
+                 | XI _ -> ((Obj.magic c0 qcOps), O)
+                 | XO p4 ->
+                   (match p4 with
+                    | XH ->
+                      ((cQ.omul (cq_of_z (Zpos (XO (XO XH))))
+                         (num_b3 cQ lr e)), (S (S (S O))))
+                    | _ -> ((Obj.magic c0 qcOps), O))
+                 | XH -> ((num_e1 cQ lr e), (S O)))
+              | XH -> ((num_e1 cQ lr eh), (S O)))
+           | _ -> ((Obj.magic c0 qcOps), O))
+        | _ -> ((Obj.magic c0 qcOps), O))
+     | XO p1 ->
+       (match p1 with
+        | XI _ -> ((Obj.magic c0 qcOps), O)
+        | XO p2 ->
+          (match p2 with
+           | XH ->
+             (match j with
+              | Zpos p3 ->
+                (match p3 with
+                 | XI p4 ->
+                   (match p4 with
+                    | XI _ -> ((Obj.magic c0 qcOps), O)
+                    | XO p5 ->
+                      (match p5 with
+                       | XH -> ((num_b3 cQ lr e), (S (S (S O))))
+                       | _ -> ((Obj.magic c0 qcOps), O))
+                    | XH -> ((num_e1 cQ lr eh), (S O)))
+                 | XO p4 ->
+                   (match p4 with
+                    | XI p5 ->
+                      (match p5 with
+                       | XH -> ((num_c3 cQ lr e), (S (S (S O))))
+                       | _ -> ((Obj.magic c0 qcOps), O))
+                    | XO p5 ->
+                      (match p5 with
+                       | XH -> ((num_a3 cQ lr e), (S (S (S O))))
+                       | _ -> ((Obj.magic c0 qcOps), O))
+                    | XH -> ((num_e1 cQ lr eh), (S O)))
+                 | XH -> ((num_e1 cQ lr eh), (S O)))
+              | _ -> ((Obj.magic c0 qcOps), O))
+           | _ -> ((Obj.magic c0 qcOps), O))
+        | XH ->
+          (match j with
+           | Zpos p2 ->
+             (match p2 with
+              | XI _ -> ((Obj.magic c0 qcOps), O)
+              | XO p3 ->
+                (match p3 with
+                 | XH -> ((num_e2 cQ lr e), (S (S O)))
+                 | _ -> ((Obj.magic c0 qcOps), O))
+              | XH -> ((num_e1 cQ lr e), (S O)))
+           | _ -> ((Obj.magic c0 qcOps), O)))
+     | XH ->
+       (match j with
+        | Zpos p1 ->
+          (match p1 with
+           | XH -> ((num_e1 cQ lr e), (S O))
+           | _ -> ((Obj.magic c0 qcOps), O))
+        | _ -> ((Obj.magic c0 qcOps), O)))
+  | _ -> ((Obj.magic c0 qcOps), O)
+
+(** val integrand_index : z -> z -> nat **)
+
+let integrand_index p j =
+  Z.to_nat
+    (match p with
+     | Zpos p0 ->
+       (match p0 with
+        | XI p1 ->
+          (match p1 with
+           | XH ->
+             (match j with
+              | Zpos p2 ->
+                (match p2 with
+                 | XI p3 ->
+                   (match p3 with
+                    | XI _ -> Zpos (XO (XI (XI XH)))
+                    | XO p4 ->
+                      (match p4 with
+                       | XH -> Zpos (XI (XI XH))
+                       | _ -> Zpos (XO (XI (XI XH))))
+                    | XH -> Zpos (XI (XO XH)))
+                 | XO p3 ->
+                   (match p3 with
+                    | XI _ -> Zpos (XO (XI (XI XH)))
+                    | XO p4 ->
+                      (match p4 with
+                       | XH -> Zpos (XO (XI XH))
+                       | _ -> Zpos (XO (XI (XI XH))))
+                    | XH -> Zpos (XO (XO XH)))
+                 | XH -> Zpos (XI XH))
+              | _ -> Zpos (XO (XI (XI XH))))
+           | _ -> Zpos (XO (XI (XI XH))))
+        | XO p1 ->
+          (match p1 with
+           | XI _ -> Zpos (XO (XI (XI XH)))
+           | XO p2 ->
+             (match p2 with
+              | XH ->
+                (match j with
+                 | Zpos p3 ->
+                   (match p3 with
+                    | XI p4 ->
+                      (match p4 with
+                       | XI _ -> Zpos (XO (XI (XI XH)))
+                       | XO p5 ->
+                         (match p5 with
+                          | XH -> Zpos (XO (XO (XI XH)))
+                          | _ -> Zpos (XO (XI (XI XH))))
+                       | XH -> Zpos (XO (XI (XO XH))))
+                    | XO p4 ->
+                      (match p4 with
+                       | XI p5 ->
+                         (match p5 with
+                          | XH -> Zpos (XI (XO (XI XH)))
+                          | _ -> Zpos (XO (XI (XI XH))))
+                       | XO p5 ->
+                         (match p5 with
+                          | XH -> Zpos (XI (XI (XO XH)))
+                          | _ -> Zpos (XO (XI (XI XH))))
+                       | XH -> Zpos (XI (XO (XO XH))))
+                    | XH -> Zpos (XO (XO (XO XH))))
+                 | _ -> Zpos (XO (XI (XI XH))))
+              | _ -> Zpos (XO (XI (XI XH))))
+           | XH ->
+             (match j with
+              | Zpos p2 ->
+                (match p2 with
+                 | XI _ -> Zpos (XO (XI (XI XH)))
+                 | XO p3 ->
+                   (match p3 with
+                    | XH -> Zpos (XO XH)
+                    | _ -> Zpos (XO (XI (XI XH))))
+                 | XH -> Zpos XH)
+              | _ -> Zpos (XO (XI (XI XH)))))
+        | XH ->
+          (match j with
+           | Zpos p1 -> (match p1 with
+                         | XH -> Z0
+                         | _ -> Zpos (XO (XI (XI XH))))
+           | _ -> Zpos (XO (XI (XI XH)))))
+     | _ -> Zpos (XO (XI (XI XH))))
+
+(** val test_nl_f : nat -> (nat -> car) -> (nat -> car) -> nat -> car **)
+
+let test_nl_f n f u k =
+  cQ.oadd (f k) (cQ.oadd (cQ.omul (u k) (u k)) (u (Nat.modulo (S k) n)))
+
+(** val run_c19 : z -> q list -> q list **)
+
+let run_c19 sub0 a =
+  match sub0 with
+  | Zpos p ->
+    (match p with
+     | XI p0 ->
+       (match p0 with
+        | XH ->
+          let p1 = qz (getq a O) in
+          let j = qz (getq a (S O)) in
+          (match take_cx (skipn (S (S O)) a) with
+           | [] -> []
+           | lr :: l ->
+             (match l with
+              | [] -> []
+              | e :: l0 ->
+                (match l0 with
+                 | [] -> []
+                 | eh :: _ ->
+                   let g =
+                     nth (integrand_index p1 j)
+                       (Obj.magic all_integrands (optOps cQ)) (fun _ _ _ ->
+                       None)
+                   in
+                   (match Obj.magic g (Some lr) (Some e) (Some eh) with
+                    | Some v ->
+                      { qnum = (Zpos XH); qden = XH } :: (put_cx (v :: []))
+                    | None -> { qnum = Z0; qden = XH } :: []))))
+        | _ -> [])
+     | XO p0 ->
+       (match p0 with
+        | XI _ -> []
+        | XO p1 ->
+          (match p1 with
+           | XH ->
+             put_cx
+               ((root_arg cQ ciQ (cr (getq a (S (S O)))) (cr (getq a O))
+                  (cr (getq a (S O)))) :: [])
+           | _ -> [])
+        | XH ->
+          let p1 = qz (getq a O) in
+          let n = qn (getq a (S O)) in
+          let arrs =
+            chunks n (S (S (S (S (S (S (S (S (S (S O))))))))))
+              (take_cx (skipn (S (S O)) a))
+          in
+          let g = fun i -> vec (nth i arrs []) in
+          let out =
+            match p1 with
+            | Zpos p2 ->
+              (match p2 with
+               | XI p3 ->
+                 (match p3 with
+                  | XH ->
+                    let f = g (S (S (S (S (S (S (S O))))))) in
+                    Obj.magic forced3 cQ (g (S (S O))) (g (S (S (S O))))
+                      (g (S (S (S (S O))))) (g (S (S (S (S (S O))))))
+                      (g (S (S (S (S (S (S O))))))) f (test_nl_f n f)
+                  | _ -> (fun _ -> c0 qcOps))
+               | XO p3 ->
+                 (match p3 with
+                  | XI _ -> (fun _ -> c0 qcOps)
+                  | XO p4 ->
+                    (match p4 with
+                     | XH ->
+                       let f = g (S (S (S (S (S (S (S (S O)))))))) in
+                       Obj.magic forced4 cQ (g (S O)) (g (S (S O)))
+                         (g (S (S (S O)))) (g (S (S (S (S O)))))
+                         (g (S (S (S (S (S O))))))
+                         (g (S (S (S (S (S (S O)))))))
+                         (g (S (S (S (S (S (S (S O)))))))) f (test_nl_f n f)
+                     | _ -> (fun _ -> c0 qcOps))
+                  | XH ->
+                    let f = g (S (S (S O))) in
+                    Obj.magic forced2 cQ (g (S O)) (g (S (S O))) f
+                      (test_nl_f n f))
+               | XH -> let f = g (S (S O)) in Obj.magic forced1 cQ (g (S O)) f)
+            | _ -> (fun _ -> c0 qcOps)
+          in
+          put_cx (map (Obj.magic out) (seq O n)))
+     | XH ->
+       let p0 = qz (getq a O) in
+       let j = qz (getq a (S O)) in
+       let dt = { re = (qqc (getq a (S (S O)))); im =
+         (qqc (getq a (S (S (S O))))) }
+       in
+       (match take_cx (skipn (S (S (S (S O)))) a) with
+        | [] -> []
+        | lr :: l ->
+          (match l with
+           | [] -> []
+           | e :: l0 ->
+             (match l0 with
+              | [] -> []
+              | eh :: _ ->
+                let nm = num_form p0 j lr e eh in
+                put_cx
+                  ((cQ.omul (Obj.magic dt)
+                     (cQ.omul (fst nm) (inv_pow cQ lr (snd nm)))) :: [])))))
+  | _ -> []
+
+(** val scan :
+    ('a1 -> 'a2 -> 'a1 * 'a3) -> 'a1 -> 'a2 list -> 'a1 * 'a3 list **)
+
+let rec scan f c = function
+| [] -> (c, [])
+| x :: r ->
+  let (c', y) = f c x in let (cf, ys) = scan f c' r in (cf, (y :: ys))
+
+(** val rollout : ('a1 -> 'a1) -> nat -> bool -> 'a1 -> 'a1 list **)
+
+let rollout f n include_init u0 =
+  let scan_fn = fun u _ -> let u' = f u in (u', u') in
+  let trj = snd (scan scan_fn u0 (repeat () n)) in
+  if include_init then u0 :: trj else trj
+
+(** val repeat_fn : ('a1 -> 'a1) -> nat -> 'a1 -> 'a1 **)
+
+let repeat_fn f n u0 =
+  let scan_fn = fun u _ -> let u' = f u in (u', ()) in
+  fst (scan scan_fn u0 (repeat () n))
+
+type 'x auxarg =
+| AuxConst of 'x
+| AuxSeq of 'x list
+
+(** val aux_seq : nat -> bool -> 'a1 auxarg -> 'a1 list option **)
+
+let aux_seq n constant_aux a =
+  if constant_aux
+  then (match a with
+        | AuxConst x -> Some (repeat x n)
+        | AuxSeq _ -> None)
+  else (match a with
+        | AuxConst _ -> None
+        | AuxSeq xs -> if Nat.eqb (length xs) n then Some xs else None)
+
+(** val rollout_aux :
+    ('a1 -> 'a2 -> 'a1) -> nat -> bool -> bool -> 'a1 -> 'a2 auxarg -> 'a1
+    list option **)
+
+let rollout_aux f n include_init constant_aux u0 a =
+  match aux_seq n constant_aux a with
+  | Some xs ->
+    let scan_fn = fun u x -> let u' = f u x in (u', u') in
+    let trj = snd (scan scan_fn u0 xs) in
+    Some (if include_init then u0 :: trj else trj)
+  | None -> None
+
+(** val repeat_aux :
+    ('a1 -> 'a2 -> 'a1) -> nat -> bool -> 'a1 -> 'a2 auxarg -> 'a1 option **)
+
+let repeat_aux f n constant_aux u0 a =
+  match aux_seq n constant_aux a with
+  | Some xs ->
+    let scan_fn = fun u x -> let u' = f u x in (u', ()) in
+    Some (fst (scan scan_fn u0 xs))
+  | None -> None
+
+(** val dynamic_slice : 'a1 list -> nat -> nat -> 'a1 list **)
+
+let dynamic_slice l i len =
+  firstn len (skipn (Nat.min i (sub (length l) len)) l)
+
+(** val stack_sub : 'a1 list -> nat -> 'a1 list list option **)
+
+let stack_sub trj sub_len =
+  let t = length trj in
+  if Nat.ltb t sub_len
+  then None
+  else Some
+         (map (fun i -> dynamic_slice trj i sub_len)
+           (seq O (add (sub t sub_len) (S O))))
+
+(** val all_same : nat list -> bool **)
+
+let all_same = function
+| [] -> true
+| x :: r -> forallb (Nat.eqb x) r
+
+(** val stack_sub_tree : 'a1 list list -> nat -> 'a1 list list list option **)
+
+let stack_sub_tree leaves sub_len =
+  match leaves with
+  | [] -> None
+  | l0 :: _ ->
+    if all_same (map length leaves)
+    then if Nat.ltb (length l0) sub_len
+         then None
+         else Some
+                (map (fun leaf ->
+                  match stack_sub leaf sub_len with
+                  | Some w -> w
+                  | None -> []) leaves)
+    else None
 
 (** val rep : z list -> z -> z list **)
 
@@ -1982,10 +2444,10 @@ let axis_plain n k is_rfft_axis =
 let scaling_halvings d n dr dother idx0 =
   fold_right Z.add Z0
     (map (fun c ->
-      let last = Nat.eqb c (sub d (S O)) in
-      if axis_plain n (wn d n c idx0) last
+      let last0 = Nat.eqb c (sub d (S O)) in
+      if axis_plain n (wn d n c idx0) last0
       then Z0
-      else if Z.eqb (if last then dr else dother) (Zpos (XO XH))
+      else if Z.eqb (if last0 then dr else dother) (Zpos (XO XH))
            then Zpos XH
            else Z0) (seq O d))
 
@@ -2395,8 +2857,8 @@ let make_incompressible_mode k d u =
 
 (** val ax_scale : ops -> z -> z -> bool -> car **)
 
-let ax_scale k n kc last =
-  if axis_plain n kc last
+let ax_scale k n kc last0 =
+  if axis_plain n kc last0
   then fz k n
   else k.odiv (fz k n) (fz k (Zpos (XO XH)))
 
@@ -2433,6 +2895,49 @@ let injection3d k ii gamma n kinj channel k0 =
              (ax_scale k n (nth (S (S O)) k0 Z0) true))
     else k.o0
   | S _ -> k.o0
+
+(** val in_bin : z -> z list -> bool **)
+
+let in_bin b k =
+  let n4 = Z.mul (Zpos (XO (XO XH))) (norm2 k) in
+  (&&)
+    ((||) (Z.leb (Z.sub (Z.mul (Zpos (XO XH)) b) (Zpos XH)) Z0)
+      (Z.leb
+        (Z.mul (Z.sub (Z.mul (Zpos (XO XH)) b) (Zpos XH))
+          (Z.sub (Z.mul (Zpos (XO XH)) b) (Zpos XH))) n4))
+    (Z.ltb n4
+      (Z.mul (Z.add (Z.mul (Zpos (XO XH)) b) (Zpos XH))
+        (Z.add (Z.mul (Zpos (XO XH)) b) (Zpos XH))))
+
+(** val recon_scale : ops -> z -> car -> z list -> car **)
+
+let recon_scale k n nD k0 =
+  if axis_plain n (last k0 Z0) true
+  then nD
+  else k.odiv nD (fz k (Zpos (XO XH)))
+
+(** val amplitude_q : ops -> z -> car -> z list -> car -> car **)
+
+let amplitude_q k n nD k0 a =
+  k.odiv a (recon_scale k n nD k0)
+
+(** val power_q : ops -> z -> car -> z list -> car -> car **)
+
+let power_q k n nD k0 a =
+  k.omul
+    (k.omul (k.odiv k.o1 (fz k (Zpos (XO XH))))
+      (k.odiv a (recon_scale k n nD k0))) (k.odiv a nD)
+
+(** val bin_sum : ops -> z -> (z list * car) list -> car **)
+
+let bin_sum k b qs =
+  fsum k (map (fun p -> if in_bin b (fst p) then snd p else k.o0) qs)
+
+(** val bin_count : ops -> z -> (z list * car) list -> z **)
+
+let bin_count _ b qs =
+  fold_right Z.add Z0
+    (map (fun p -> if in_bin b (fst p) then Zpos XH else Z0) qs)
 
 (** val aff : z -> z -> z -> z **)
 
@@ -3229,6 +3734,56 @@ let run_c12 sub0 a =
             (zs (skipn (S (S (S (S O)))) a))) :: []))
   | _ -> []
 
+(** val take_modes : nat -> nat -> q list -> (z list * car) list **)
+
+let rec take_modes d n l =
+  match n with
+  | O -> []
+  | S m ->
+    ((map qz (firstn d l)),
+      (Obj.magic qqc (nth d l { qnum = Z0; qden = XH }))) :: (take_modes d m
+                                                               (skipn (S d) l))
+
+(** val run_c17 : z -> q list -> q list **)
+
+let run_c17 sub0 a =
+  match sub0 with
+  | Zpos p ->
+    (match p with
+     | XI _ -> []
+     | XO p0 ->
+       (match p0 with
+        | XH -> (bq (in_bin (qz (getq a O)) (zs (skipn (S O) a)))) :: []
+        | _ -> [])
+     | XH ->
+       let d = qn (getq a O) in
+       let n = qz (getq a (S O)) in
+       let power = qb (getq a (S (S O))) in
+       let avg = qb (getq a (S (S (S O)))) in
+       let nm = qn (getq a (S (S (S (S O))))) in
+       let modes = take_modes d nm (skipn (S (S (S (S (S O))))) a) in
+       let nD = fpow qcOps (Obj.magic qqc (zq n)) d in
+       let qs =
+         map (fun p0 -> ((fst p0),
+           (if power
+            then power_q qcOps n nD (fst p0) (snd p0)
+            else amplitude_q qcOps n nD (fst p0) (snd p0)))) modes
+       in
+       if Nat.eqb d (S O)
+       then map (fun p0 -> qcq (snd (Obj.magic p0))) qs
+       else flat_map (fun b ->
+              let c = bin_count qcOps b qs in
+              (zq c) :: ((qcq
+                           (if avg
+                            then if Z.eqb c Z0
+                                 then q2Qc { qnum = Z0; qden = XH }
+                                 else qcdiv (Obj.magic bin_sum qcOps b qs)
+                                        (qqc (zq c))
+                            else Obj.magic bin_sum qcOps b qs)) :: []))
+              (map Z.of_nat
+                (seq O (add (Z.to_nat (Z.div n (Zpos (XO XH)))) (S O)))))
+  | _ -> []
+
 (** val run : z -> q list -> q list **)
 
 let run id a =
@@ -3238,7 +3793,15 @@ let run id a =
      (match p with
       | XI p0 ->
         (match p0 with
-         | XI _ -> []
+         | XI p1 ->
+           (match p1 with
+            | XO p2 ->
+              (match p2 with
+               | XO p3 -> (match p3 with
+                           | XH -> run_c19 sub0 a
+                           | _ -> [])
+               | _ -> [])
+            | _ -> [])
          | XO p1 ->
            (match p1 with
             | XI p2 ->
@@ -3250,7 +3813,12 @@ let run id a =
                                 | _ -> [])
                   | _ -> [])
                | _ -> [])
-            | XO _ -> []
+            | XO p2 ->
+              (match p2 with
+               | XO p3 -> (match p3 with
+                           | XH -> run_c17 sub0 a
+                           | _ -> [])
+               | _ -> [])
             | XH -> run_ops sub0 a)
          | XH ->
            (match sub0 with
